@@ -18,13 +18,15 @@ RULE = ("datagram sequences fed to the real Memoer (authic on and off) and servi
         "boundary, gram numbers >= count, count 0, re-signed by another signer, undecodable bodies, random bytes with "
         "plausible first sextets, empty datagrams; memos signed for a transferable ('D') vid with the key embedded in "
         "the vid or with a rotated key, received with a keep that has the embedded key, the rotated key or no entry; "
+        "every value of the pad bits of signature and vid text; EXHAUSTIVE sweep (extra) of every single alteration of the "
+        "signature and vid fields (thorough: all head fields) of zeroth and non-zeroth signed grams, b64 and base2; "
         "non-trivial = contains a mutated/truncated valid gram or random "
         "bytes starting with a b64/b2 'b' sextet")
-MODELLED = ["the crypto proper inside Memoer.verify (_decodeQVK/_decodeSGN of key and signature text, libsodium "
-            "crypto_sign_verify_detached) as a parameter `sigverify key sig ser`, instantiated per case with the outcomes "
-            "of the real calls; the choice of the key (vid code B: the vid itself; D/E: keep lookup, missing -> rejected; "
-            "code/length/midpad checks of _decodeVID) is modelled (MemoGram.mverify); contract used by the theorems: "
-            "sigverify returns True or raises MemoerError",
+MODELLED = ["libsodium crypto_sign_verify_detached as a parameter `rawverify rawkey rawsig ser`, instantiated per case with "
+            "the outcomes of the real calls keyed by raw key and raw signature; the text->raw decoders of vid, qvk and "
+            "signature (code, length, Base64, zero pad bits) and the choice of the key (vid code B: the vid itself; D/E: "
+            "keep lookup, missing -> rejected) are modelled (MemoGram.decode_key/decode_sgn/mverify); contract used by "
+            "the totality theorems: rawverify returns True or raises MemoerError",
             "bytes.decode() as a strict UTF-8 validity predicate; memo text compared as UTF-8 bytes",
             "the four rx dicts as one insertion-ordered entry list; sources as N",
             "Memoer.receive via the .echos queue (echoic)"]
@@ -84,6 +86,51 @@ def _mutations(g, code, curt, zeroth, rng=None):
                 out.append((f"trunc@{cut}", g[:cut]))
     out.append(("extended", g + b"\x00"))
     return out
+
+
+B64 = "ABCDEFGHIJKLMNOPQRSTUVWXYZabcdefghijklmnopqrstuvwxyz0123456789-_"
+
+
+def _pad_mutations(g, code, curt, zeroth):
+    """the non-canonical encodings: every non-zero value of the pad bits of the signature text (4 bits: top bits of
+    its third character / low nibble of its second base2 byte) and of the vid text (2 bits: top bits of its second
+    character / low 2 bits of its first base2 byte); under a lenient decoder they denote the same raw bytes"""
+    parts, az = _parts(code, curt, zeroth)
+    out = []
+    if az:
+        a = len(g) - az
+        if curt:
+            i = a + 1
+            out += [(f"sigpad:{k}", g[:i] + bytes([g[i] ^ k]) + g[i + 1:]) for k in range(1, 16)]
+        else:
+            i = a + 2
+            x = B64.index(chr(g[i]))
+            out += [(f"sigpad:{k}", g[:i] + B64[x ^ (k << 2)].encode() + g[i + 1:]) for k in range(1, 16)]
+    vidp = [p for p in parts if p[0] == "vid"]
+    if vidp:
+        a = vidp[0][1]
+        if curt:
+            out += [(f"keypad:{k}", g[:a] + bytes([g[a] ^ k]) + g[a + 1:]) for k in range(1, 4)]
+        else:
+            x = B64.index(chr(g[a + 1]))
+            out += [(f"keypad:{k}", g[:a + 1] + B64[x ^ (k << 4)].encode() + g[a + 2:]) for k in range(1, 4)]
+    return out
+
+
+def _field_sweep(g, code, curt, zeroth, fields):
+    """EVERY single alteration of the named head fields / the signature: each position x each other Base64 character
+    (b64 heads) or each single-bit flip (base2 heads)"""
+    parts, az = _parts(code, curt, zeroth)
+    regions = [p for p in parts if p[0] in fields] + ([("sig", len(g) - az, len(g))] if az and "sig" in fields else [])
+    for name, a, b in regions:
+        for i in range(a, b):
+            if curt:
+                for bit in range(8):
+                    yield f"{name}@{i}^{1 << bit}", g[:i] + bytes([g[i] ^ (1 << bit)]) + g[i + 1:]
+            else:
+                for ch in B64:
+                    if ord(ch) != g[i]:
+                        yield f"{name}@{i}:{ch}", g[:i] + ch.encode() + g[i + 1:]
 
 
 def _code_swaps(g, curt):
@@ -171,6 +218,15 @@ def directed():
             for rcv in ("full", "rotated", "nokeep"):
                 out.append(_case(True, [(x, 3) for x in gk], "all", f"keep:{rcv}/{snd}", keep=rcv))
                 out.append(_case(False, [(x, 3) for x in gk], "end", f"keep:{rcv}/{snd}", keep=rcv))
+    # non-canonical signature / vid text (non-zero pad bits): every value, zeroth and non-zeroth gram, both encodings
+    for curt in (False, True):
+        for si in (0, 2):
+            n += 1
+            gp = _grams(MEMOS[2], "bAAC", curt, vids[si], n, 5)
+            for lab, m in _pad_mutations(gp[0], "bAAC", curt, True):
+                out.append(_case(True, [(m, 1), (gp[1], 1)], "all", "mut:" + lab))
+            for lab, m in _pad_mutations(gp[1], "bAAC", curt, False):
+                out.append(_case(True, [(gp[0], 1), (m, 1)], "all", "mut:" + lab))
     # unsigned gram to an authic receiver; signed gram to a non-authic receiver; empty datagram stops the loop
     gu = _grams(MEMOS[0], "bAAA", False, None, n + 2, 5)
     out.append(_case(True, [(gu[0], 1)], "all", "mut:unsigned to authic"))
@@ -185,7 +241,7 @@ def directed():
 
 def generate(rng, tier):
     cfgs, vids = _cfgs()
-    n_cases = 420 if tier == "quick" else 7000
+    n_cases = 420 if tier == "quick" else 4500
     out = []
     for i in range(n_cases):
         code, curt, vid = cfgs[rng.randrange(len(cfgs))]
@@ -209,6 +265,8 @@ def generate(rng, tier):
         if r < 0.55:                                   # one or two mutated copies woven into the valid stream
             k = rng.randrange(len(g))
             muts = _mutations(g[k], code, curt, k == 0, rng) + (_code_swaps(g[k], curt) if rng.random() < 0.3 else [])
+            if signed and rng.random() < 0.3:
+                muts = _pad_mutations(g[k], code, curt, k == 0)
             picks = rng.sample(muts, min(len(muts), rng.choice([1, 1, 2])))
             kind = "mut:" + ",".join(p[0] for p in picks)
             for lab, m in picks:
@@ -262,7 +320,7 @@ def _compose(text, bodies):
 def oracle(case, obs):
     if any(obs["excs"]):
         return f"servicing the receive side raised: {obs['excs']}"
-    if any(e[3] not in ("ok", "MemoErr") for e in obs["verify"]):
+    if any(e[3] not in ("ok", "MemoErr") for e in obs["verify"]):  # noqa
         return f"Memoer.verify raised something other than MemoerError: {[e[3] for e in obs['verify'] if e[3] not in ('ok', 'MemoErr')]}"
     if case["authic"]:
         keep, _ = mc.keep_and_vids(case.get("keep", "full"))      # the receiver's keep
@@ -272,9 +330,9 @@ def oracle(case, obs):
                 return f"memo {text!r} delivered without a signer id although signed grams are required"
             vid = bytes.fromhex(vid).decode()
             bodies = []
-            for kt, s, ser, r, v in obs["verify"]:
+            for _k, _rs, ser, r, v, sg in obs["verify"]:
                 if r == "ok" and bytes.fromhex(v).decode() == vid:
-                    serb, sig = bytes.fromhex(ser), bytes.fromhex(s).decode()
+                    serb, sig = bytes.fromhex(ser), bytes.fromhex(sg).decode("latin1")
                     hl = mc.head_len(serb)
                     if hl is not None and mc.sodium_ok(vid, sig, serb, keep):
                         bodies.append(serb[hl:])
@@ -342,4 +400,44 @@ def extra(tier, ctx):
                     break
         if m.rxgs or m.inbox or m.rxms:
             ctx.violations.append({"why": f"tiny datagrams left state behind (authic={authic})", "case": None})
-    return {"exhaustive_tiny_datagrams": n}
+    return {"exhaustive_tiny_datagrams": n, "exhaustive_field_alterations": _sweep(tier, ctx)}
+
+
+def _sweep(tier, ctx):
+    """Exhaustive over the signature and vid fields of authentic signed grams: every single alteration (each position x
+    each other Base64 character, resp. each bit flip for base2 heads) of a zeroth and a non-zeroth gram must be dropped
+    by a receiver that requires signatures: no trace in rxgs, nothing delivered."""
+    _, vids = mc.keep_and_vids()
+    cfgs = [("bAAC", False, 0), ("bAAC", True, 0)]
+    if tier == "thorough":
+        cfgs += [("bAAC", False, 2), ("bAAC", True, 2), ("bAAG", False, 1), ("bAAG", True, 1)]
+    total, bad = 0, 0
+    for ci, (code, curt, si) in enumerate(cfgs):
+        g = _grams(MEMOS[1], code, curt, vids[si], 9000 + ci, 20)[:2]
+        assert len(g) == 2
+        for gi in (0, 1):
+            rx = None
+            for lab, m in _field_sweep(g[gi], code, curt, gi == 0, ("vid", "sig") if tier == "quick" else ("code", "neck", "mid", "vid", "sig")):
+                if rx is None:
+                    rx = mc.new_receiver(True)
+                    if gi == 1:
+                        rx.echos.append((g[0], "src1")); rx.serviceAllRx()
+                    base = {k: sorted(v) for k, v in rx.rxgs.items()}
+                total += 1
+                rx.echos.append((m, "src1"))
+                why = None
+                try:
+                    rx.serviceAllRx()
+                except Exception as ex:
+                    why = f"raised {type(ex).__name__}"
+                now = {k: sorted(v) for k, v in rx.rxgs.items()}
+                if why is None and (now != base or rx.inbox or rx.rxms):
+                    why = "was accepted"
+                if why:
+                    bad += 1
+                    if bad <= 3:
+                        dg = ([(g[0], 1)] if gi == 1 else []) + [(m, 1)]
+                        ctx.violations.append({"why": f"altered signed gram ({code} curt={curt} gram {gi}: {lab}) {why} by a receiver "
+                                                      f"that requires signatures", "case": _case(True, dg, "all", "mut:sweep " + lab)})
+                    rx = None
+    return total
